@@ -254,6 +254,17 @@ func TestRegisteredByRunningGateway(t *testing.T) {
 		if len(specs) == 0 {
 			return
 		}
+		// a large configuration: one case in twelve has dozens of further flows (a filter without a method list
+		// is registered once per supported method, so 26 of them are 130 expressions)
+		small := specs
+		if rapid.IntRange(0, 11).Draw(t, "bulk") == 0 {
+			nb := rapid.SampledFrom([]int{12, 26, 27, 30, 51}).Draw(t, "bulk-flows")
+			specs = append([]spec{}, specs...)
+			for i := 0; i < nb; i++ {
+				specs = append(specs, spec{Name: fmt.Sprintf("bulk%d", i), URL: fmt.Sprintf("bulk.com/svc%d/{id}", i)})
+			}
+			r.Class(fmt.Sprintf("bulk flows=%d", nb))
+		}
 		entries, _ := os.ReadDir(filepath.Join(e2eRoot, "flows"))
 		for _, e := range entries {
 			os.Remove(filepath.Join(e2eRoot, "flows", e.Name()))
@@ -269,7 +280,35 @@ func TestRegisteredByRunningGateway(t *testing.T) {
 			return
 		}
 		exprs, manageAll := e2eProxy.snapshot()
-		r.Class(fmt.Sprintf("flows=%d", len(specs)))
+		r.Class(fmt.Sprintf("flows=%d", len(small)))
+		if len(specs) > len(small) && !manageAll {
+			have := map[string]bool{}
+			for _, e := range exprs {
+				have[e] = true
+			}
+			for _, s := range specs[len(small):] {
+				for _, m := range []string{"GET", "PATCH"} {
+					r.Case()
+					q := request{Method: m, URL: strings.Replace(s.URL, "{id}", "7", 1)}
+					if !e2eRun(q)[s.Name] {
+						continue
+					}
+					own, _ := registeredForFilter(&streamconfig.Filter{Name: s.Name, URL: s.URL})
+					ok := false
+					for _, o := range own {
+						ok = ok || (have[o] && search([]string{o}, q.Method, q.URL))
+					}
+					if ok || search(exprs, q.Method, q.URL) {
+						continue
+					}
+					fail := &caseRepr{Kind: "e2e", Subject: s, Request: q}
+					fail.Note = fmt.Sprintf("%d flows loaded: the running engine executes flow %s for %s %s, but none of the %d expressions it registered with the proxy matches it: the transaction bypasses the engine",
+						len(specs), s.Name, q.Method, q.URL, len(exprs))
+					t.Fatalf("%s", r.Fail(map[string]any{"flows": small, "bulk_flows": len(specs) - len(small), "failure": fail}, "%s", fail.Note))
+				}
+			}
+		}
+		specs = small
 		for k := 0; k < 6; k++ {
 			d := genDerived(t, specs)
 			ran := e2eRun(d.q)
